@@ -647,9 +647,15 @@ class Message:
                 host = refmsg.opt.uri_host or host
                 port = refmsg.opt.uri_port or port
 
-                # FIXME: This sounds like it should be part of
-                # hpostportjoin/-split
-                escaped_host = quote_nonascii(host)
+                # Reserved characters (and "%") of a Uri-Host need to be
+                # percent-encoded, otherwise they act as delimiters when the
+                # URI is parsed again; IP literals (which hostportsplit
+                # returns without their brackets) are kept as they are.
+                try:
+                    ipaddress.ip_address(host.removeprefix("[").removesuffix("]"))
+                    escaped_host = host
+                except ValueError:
+                    escaped_host = _quote_for_host(host)
 
                 # FIXME: "If host is not valid reg-name / IP-literal / IPv4address,
                 # fail"
@@ -883,6 +889,7 @@ class UndecidedRemote(
 
 _ascii_lowercase = str.maketrans(string.ascii_uppercase, string.ascii_lowercase)
 
+_quote_for_host = quote_factory(unreserved + sub_delims)
 _quote_for_path = quote_factory(unreserved + sub_delims + ":@")
 _quote_for_query = quote_factory(
     unreserved + "".join(c for c in sub_delims if c != "&") + ":@/?"
